@@ -208,6 +208,7 @@ func (p *Provider) instanceFromInformer(ip gostatsd.Source) *gostatsd.Instance {
 		logger.Warn("More than one Pod in cache. Using first stored")
 	}
 	pod := objs[0].(*core_v1.Pod)
+	verifhook.Yield("k8s.instanceFromInformer.after-read", ip)
 
 	// Turn the pod metadata into tags
 	var tags gostatsd.Tags
